@@ -32,6 +32,8 @@ func vh08Corpus() [][]vhsOp {
 			wk(0, 1, 10, 1, 0), o("getattr", 0, 10), o("renameat", 0, 0, 0, 0, 0), o("renameat", 0, 1, 1, 0, 0)),
 		// refused renames: into itself / a descendant, over an ancestor of the source; non-existing source
 		cat(deep, o("renameat", 0, 0, 0, 2, 0), o("renameat", 0, 0, 0, 3, 3), o("renameat", 0, 3, 3, 0, 0), o("renameat", 0, 0, 3, 0, 2), o("rename", 0, 1, 3, 0)),
+		// clone of a fenced fid: stays fenced, takes and drops its parent reference
+		cat(deep, o("unlinkat", 0, 2, 2), wk(0, 3, 8), o("open", 0, 8, 0), o("clunk", 0, 8), o("clunk", 0, 3), o("clunk", 0, 7), o("getattr", 0, 2), o("mk", 0, 0, 2, 2)),
 		// an xattr fid cannot be cloned (EINVAL, no backend call, nothing bound); it follows renames through its origin
 		{at(0, 0), o("mk", 0, 0, 0, 1), wk(0, 0, 1, 1), o("xattrwalk", 0, 1, 2), wk(0, 2, 3), o("getattr", 0, 3), vhsOp{K: "walk", A: []int{0, 2, 3}, G: true},
 			o("renameat", 0, 0, 1, 0, 2), o("getattr", 0, 1), o("getattr", 0, 2), o("getattr", 0, 3), wk(0, 2, 2), o("getattr", 0, 2)},
